@@ -258,8 +258,13 @@ impl CanonicalRequest {
                         pq.push_str(&qs);
                     }
 
-                    parts.uri =
-                        Uri::builder().path_and_query(pq).build().expect("failed to rebuild URI with new query string");
+                    // The merged query string may be too long to be represented as a URI.
+                    parts.uri = Uri::builder().path_and_query(pq).build().map_err(|e| {
+                        SignatureError::MalformedQueryString(format!(
+                            "Request URI with application/x-www-form-urlencoded body parameters is invalid: {}",
+                            e
+                        ))
+                    })?;
                     body = Bytes::from("");
                 }
             }
